@@ -40,7 +40,10 @@ def parse_output(out):
                 res['passed'] += 1
     if 'VERIFICATION SUCCESSFUL' in out: res['verdict'] = 'holds'
     elif 'VERIFICATION FAILED' in out: res['verdict'] = 'violated'
-    elif re.search(r'(VERIFICATION ERROR|PARSING ERROR|CONVERSION ERROR|Out of memory|std::bad_alloc)', out): res['verdict'] = 'error'
+    elif re.search(r'(PARSING ERROR|CONVERSION ERROR)', out): res['verdict'] = 'error'
+    elif re.search(r'(VERIFICATION ERROR|Out of memory|std::bad_alloc)', out):
+        # the back end gave up on the query (solver error, memory cap): this decides nothing - it is not a defect of the harness
+        res['verdict'] = 'unknown'; res['gave_up'] = True
     return res
 
 
